@@ -5,7 +5,7 @@ import hashlib, json, os, re
 import common as c
 
 N = {"quick": 400, "thorough": 40000}
-OPK = ("S", "D", "T", "C", "X", "R", "L", "Q", "P", "V")
+OPK = ("S", "D", "T", "C", "X", "R", "L", "Q", "P", "V", "M")
 
 
 def parse_contents(s):
@@ -73,6 +73,9 @@ def oracle(h, prop):
     crash_at_zero = False     # a Commit was interrupted while the root version was still 0
     policy_changed = False
     disk = set()              # versions every substore still has, by the pruning rule as documented
+    late = set()              # stores mounted after the first commits: IAVL numbers THEIR versions from 1, so a height
+                              # addressed to them is off by the mounting height (observation F28; the model, which keeps
+                              # one version list per substore, mirrors it and is compared as usual)
 
     def committed_version(ver):
         disk.add(ver)
@@ -86,6 +89,21 @@ def oracle(h, prop):
             break
         t = op.split(" ")
         k = t[0]
+        if k == "M":
+            late.add(t[1])
+            if res == "err" and prop == "C12":
+                return i, "reopening the database with one more store mounted fails", {"kind": "reopen-fails"}
+            continue
+        if late:
+            # after a late mount only the plain failures are judged here (a reopen or a commit that fails); versions,
+            # contents and hashes of such a history follow the per-substore numbering and are compared with the model
+            if k in ("R",) and res == "err" and prop == "C12":
+                return i, "reopening the database fails after a store was mounted late", {"kind": "reopen-fails"}
+            if k == "C" and not res.startswith("ok ") and prop == "C12":
+                return i, "Commit failed: " + res[:80], {"kind": "commit-failed"}
+            if k == "X" and res.startswith("panic") and prop in ("C12", "C13"):
+                return i, "Commit panics: " + res[:120], {"kind": "commit-failed"}
+            continue
         if k == "P":
             policy_changed = True     # the closed-form retained set below assumes one policy per history
             kr, ke = int(t[1]), int(t[2])
@@ -127,6 +145,10 @@ def oracle(h, prop):
                 break          # interrupted commits are C13's subject
             old = cur
             new_state = {n: dict(d) for n, d in work.items()}
+            if res.startswith("panic"):
+                if prop in ("C12", "C13"):
+                    return i, "Commit panics: " + res[:120], {"kind": "commit-failed"}
+                break
             if res.startswith("nocrash"):
                 m = re.match(r"nocrash ver=(\d+) twin=(\w+) (.*)$", res)
                 cur = int(m.group(1))
@@ -170,7 +192,12 @@ def oracle(h, prop):
             committed[cur] = new_state
             work = {n: dict(d) for n, d in new_state.items()}
             pending = []
-        elif k == "R":
+        elif k in ("R", "M"):
+            if k == "M":        # a store mounted late: it starts empty at every version committed so far
+                late.add(t[1])
+                work[t[1]] = {}
+                for cv in committed.values():
+                    cv.setdefault(t[1], {})
             if res == "err":
                 if prop == "C12":
                     return i, "reopening the database fails", {"kind": "reopen-fails"}
@@ -201,7 +228,7 @@ def oracle(h, prop):
                         return i, "version %d should have been pruned under keepRecent=%d keepEvery=%d after %d commits but is readable" % (v, kr, ke, top), {"kind": "pruned-readable"}
         elif k == "Q":
             store, key, hgt, prove = t[1], t[2], int(t[3]), t[4] == "true"
-            if prop != "C14":
+            if prop != "C14" or store in late:
                 continue
             if res.startswith("panic"):
                 return i, "store query panics: %s" % res[6:70], {"kind": "query-panic", "key_all_ff": set(key) <= set("f"), "prove": prove}
@@ -244,7 +271,7 @@ def oracle(h, prop):
         elif k == "V":
             # CacheMultiStoreWithVersion(ver): the committed content of that version, whatever is pending in the working trees
             store, key, ver = t[1], t[2], int(t[3])
-            if prop not in ("C12", "C14"):
+            if prop not in ("C12", "C14") or late:
                 continue
             body = res.split(" ")[0]
             if body == "panic":
@@ -293,7 +320,13 @@ def run(a, prop, what):
         distinct.add(hashlib.sha1((h["header"] + "\n".join(o[0] for o in h["ops"])).encode()).hexdigest())
         if hi % 131 == 0 and len(samples) < 2:
             samples.append({"history": [h["header"]] + [o[0] for o in h["ops"][:15]], "impl": [o[1][:120] for o in h["ops"][:4] if o[1]]})
-        bad = oracle(h, prop)
+        try:
+            bad = oracle(h, prop)
+        except Exception as e:      # an observation the oracle cannot read is a broken check, never a silent pass or a crash
+            import traceback
+            v.broken_obligation("the %s oracle could not interpret the implementation's observations of history %s" % (prop, h["id"]),
+                                traceback.format_exc()[-1500:])
+            bad = None
         if bad is not None:
             idx, msg, sig = bad
             flagged += 1
